@@ -4,6 +4,25 @@ From Coq Require Import List Arith NArith Bool Lia.
 From Verif Require Import Lib.Hex Model.MutFile.
 Import ListNotations.
 
+(* ---- firstn / skipn / nth facts missing from the 8.16 library ------------------ *)
+Lemma skipn_skipn {A} a b (l : list A) : skipn a (skipn b l) = skipn (b + a) l.
+Proof.
+  revert l. induction b; intros l; [reflexivity|].
+  destruct l; [rewrite !skipn_nil; reflexivity|]. cbn [skipn Nat.add]. apply IHb.
+Qed.
+
+Lemma nth_skipn {A} i n (l : list A) d : nth i (skipn n l) d = nth (n + i) l d.
+Proof.
+  revert l. induction n; intros l; [reflexivity|].
+  destruct l; [rewrite skipn_nil; destruct i; reflexivity|]. cbn [skipn Nat.add nth]. apply IHn.
+Qed.
+
+Lemma nth_firstn_lt {A} i n (l : list A) d : i < n -> nth i (firstn n l) d = nth i l d.
+Proof.
+  revert i l. induction n; intros i l H; [lia|].
+  destruct l; [reflexivity|]. destruct i; [reflexivity|]. cbn [firstn nth]. apply IHn. lia.
+Qed.
+
 (* ---- slices ---------------------------------------------------------------- *)
 Lemma slice_length a b (s : bytes) : length (slice a b s) = Nat.min (b - a) (length s - a).
 Proof. unfold slice. rewrite firstn_length, skipn_length. reflexivity. Qed.
@@ -43,7 +62,7 @@ Proof.
 Qed.
 
 Lemma slice_skipn a b n (s : bytes) : slice a b (skipn n s) = slice (n + a) (n + b) s.
-Proof. unfold slice. rewrite skipn_skipn. f_equal; [lia|]. f_equal. lia. Qed.
+Proof. unfold slice. rewrite skipn_skipn. f_equal. lia. Qed.
 
 Lemma slice_slice a b c d (s : bytes) : slice a b (slice c d s) = slice (c + a) (Nat.min (c + b) d) s.
 Proof.
@@ -51,18 +70,18 @@ Proof.
   unfold slice. f_equal. lia.
 Qed.
 
+Lemma firstn_add {A} m n (t : list A) : firstn (m + n) t = firstn m t ++ firstn n (skipn m t).
+Proof.
+  revert t. induction m; intros t; [reflexivity|].
+  destruct t; [rewrite skipn_nil, !firstn_nil; reflexivity|].
+  cbn [Nat.add firstn skipn app]. f_equal. apply IHm.
+Qed.
+
 Lemma slice_adj a b c (s : bytes) : a <= b -> b <= c -> slice a b s ++ slice b c s = slice a c s.
 Proof.
   intros H1 H2. unfold slice.
   replace (c - a) with ((b - a) + (c - b)) by lia.
-  rewrite <- (firstn_skipn (b - a) (skipn a s)) at 3.
-  rewrite firstn_app.
-  rewrite (firstn_all2 (n := b - a + (c - b))) by (rewrite firstn_length; lia).
-  f_equal. rewrite skipn_skipn. replace (b - a + a) with b by lia.
-  rewrite firstn_length, skipn_length.
-  destruct (Nat.le_ge_cases (b - a) (length s - a)).
-  - rewrite Nat.min_l by lia. f_equal. lia.
-  - rewrite skipn_all2 by lia. rewrite !firstn_nil. reflexivity.
+  rewrite firstn_add. rewrite skipn_skipn. replace (a + (b - a)) with b by lia. reflexivity.
 Qed.
 
 Lemma firstn_slice n a b (s : bytes) : firstn n (slice a b s) = slice a (Nat.min (a + n) b) s.
@@ -70,7 +89,7 @@ Proof. unfold slice. rewrite firstn_firstn. f_equal. lia. Qed.
 
 Lemma skipn_slice n a b (s : bytes) : skipn n (slice a b s) = slice (a + n) b s.
 Proof.
-  unfold slice. rewrite skipn_firstn_comm, skipn_skipn. f_equal; [lia|]. f_equal. lia.
+  unfold slice. rewrite skipn_firstn_comm, skipn_skipn. f_equal. lia.
 Qed.
 
 Lemma nth_slice i a b (s : bytes) d : i < b - a -> nth i (slice a b s) d = nth (a + i) s d.
@@ -109,6 +128,15 @@ Proof.
   intros H1 H2. split.
   - symmetry. apply (Nat.div_unique a d q r); assumption.
   - symmetry. apply (Nat.mod_unique a d q r); assumption.
+Qed.
+
+Lemma mul_sandwich d q l r : d * q = d * l + r -> 0 < r -> r <= d -> q = l + 1 /\ r = d.
+Proof.
+  intros H H1 H2.
+  destruct (Nat.lt_trichotomy q (l + 1)) as [L|[L|L]].
+  - assert (d * q <= d * l) by (apply Nat.mul_le_mono_l; lia). lia.
+  - subst q. split; [reflexivity|]. lia.
+  - assert (d * (l + 2) <= d * q) by (apply Nat.mul_le_mono_l; lia). lia.
 Qed.
 
 Lemma div_ceil_0 d : d <> 0 -> div_ceil 0 d = 0.
@@ -199,7 +227,7 @@ Lemma chunks_n_app n m seg (d : bytes) :
 Proof.
   revert d. induction n; intros d; cbn [chunks_n Nat.add app].
   - rewrite Nat.mul_0_l. reflexivity.
-  - rewrite IHn. rewrite skipn_skipn. f_equal. f_equal. f_equal. f_equal. lia.
+  - rewrite IHn. rewrite skipn_skipn. replace (seg + n * seg) with (S n * seg) by lia. reflexivity.
 Qed.
 
 Lemma chunks_n_firstn n seg (d : bytes) m : n * seg <= m ->
